@@ -166,6 +166,20 @@ def check_vector(ctx, rng, st, flags):
             live.valid = flags2.copy()
             rl = by_name(fitter.fit(live))
             rf = by_name(fit(flags2, flux, err))
+            # ... and then its values re-assigned (flags untouched)
+            fx3, er3 = flux.copy(), err.copy()
+            reg = (flags2 == 1)
+            fx3[reg] = flux[reg] * rng.uniform(0.5, 2.0, int(reg.sum()))
+            er3[reg] = err[reg] * rng.uniform(0.5, 2.0, int(reg.sum()))
+            live.flux = fx3.copy()
+            live.error = er3.copy()
+            rl3 = by_name(fitter.fit(live))
+            rf3 = by_name(fit(flags2, fx3, er3))
+            for name in rf3:
+                if not all(same_f(x_, y_) for x_, y_ in zip(rf3[name][:3], rl3[name][:3])):
+                    ctx.violation('revalued-live-source-differs', 'a source object whose fluxes/errors were re-assigned is not fitted like a fresh source with those values',
+                                  dict(wit, new_flags=flags2, new_flux=fx3, new_error=er3, model=name, fresh=rf3[name][:3], live=rl3[name][:3]))
+                    break
         except Exception as exc:
             ctx.event('live-source-reflagged:refused')
             rl = None
